@@ -34,6 +34,8 @@ func (c07) Cases(tier string) int {
 
 func (c07) Thresholds(tier string) map[string]int64 {
 	return map[string]int64{
+		"program-whose-Start-node-is-not-first":     30,
+		"program-with-a-title-defined-twice":        60,
 		"save-points":                               2000,
 		"restore:fresh":                             300,
 		"restore:mid-node":                          300,
@@ -62,6 +64,7 @@ func (c07) Rule() string {
 
 func (c07) Assumptions() []string {
 	return []string{
+		"one program in five defines a title twice (the library accepts that): the FIRST definition is the node of that name - for jumps, for the tracking header and for RestoreAt alike - and the second is never entered; only the consistency of that choice is judged",
 		"nil and empty maps are equal in snapshots; visit entries with count 0 equal absent entries",
 		"receiver states are produced with the public API only (driving the receiver, or restoring it into the node that holds the never-completing command); the verif hook VerifState only confirms them for the evidence",
 		"continuations are compared until the first error of the path",
@@ -93,6 +96,8 @@ func vandalize(s *ysgo.Snapshot) {
 func (p c07) Run(c *core.Ctx) {
 	r := c.R
 	cfg := gen.DefaultFlow()
+	cfg.StartNotFirst = true
+	cfg.DupTitles = true
 	cfg.VisitLines = r.Bool()
 	cfg.WJump = 12
 	cfg.WStop = 3
@@ -106,6 +111,7 @@ func (p c07) Run(c *core.Ctx) {
 		cfg.Cmds = false
 	}
 	prog := gen.Flow(r, cfg)
+	shapeFeatures(c, prog)
 	// the node that parks a runner on a never-completing command
 	id := 900000
 	prog.Nodes = append(prog.Nodes, &hast.Node{Title: limboNode, Reader: prog.Readers - 1, Body: []*hast.Stmt{
